@@ -170,3 +170,45 @@ Example C13_witness_weight :
   cp_dec (codes c13_prog) = [(0, 23); (2, 31); (3, 3); (6, 9); (8, 32); (11, 40)] /\
   cp_need (codes c13_prog) 0 = 16 /\ trackcount c13_prog * G_ensure_factor = 16.
 Proof. vm_compute. repeat split; reflexivity. Qed.
+
+(* ---- the dichotomy for programs compiled from supported trees (corollary of C01's compile_correct2) ----
+   C13_limit_dichotomy_partial above needs control-flow safety of EVERY state the unlimited engine can reach
+   from any state at code position 0.  For the program the writer emits for a supported2 tree the unlimited
+   run of every attempt is known (C01_compile_correct2_top_partial), and the dichotomy follows for the whole
+   scan, stack capacities carried from attempt to attempt:
+     ErrBacktrackingStackLimit (only if 0 <= L), or the same result as the unlimited scan, or both out of fuel;
+     in particular never a fault, and the unlimited scan itself never faults.
+   What is left of the hypothesis ([_partial]): CompileTotal.path_ok on the unbounded path of each start
+   position (instruction boundaries, grouping stack two words below its initial size) -- decidable per
+   instance (CompileLimit.mon_steps); enough reference fuel at every start position. *)
+From Verif Require Import Proofs.SpecBoundsProofs Proofs.CompileDefs Proofs.CompileBalDefs
+  Proofs.CompileTotal Proofs.CompileLimit Proofs.CompileLimitTop.
+
+Theorem C13_dichotomy_for_supported_partial :
+  forall (e : env) (p : program), 0 <= trackcount p -> track_count (codes p) <= trackcount p -> tlen e <= INF ->
+  forall fuel o body,
+  let root := NCapture o 0 (-1) body in
+  codes p = fst (compile cfg0 root) -> strings p = snd (compile cfg0 root) ->
+  supported2 root = true -> groups_ok2 (capsize p) root -> Z.of_nat fuel <= INF ->
+  (forall t, 0 <= t <= tlen e -> exists r, attempt e fuel root t = Ok r) ->
+  (forall t, 0 <= t <= tlen e -> path_ok e p (a0 p t)) ->
+  forall L vfuel rtl start prevlen, 0 <= start <= tlen e ->
+    let r1 := vm_find e p L vfuel rtl start prevlen in
+    let r2 := vm_find e p (-1) vfuel rtl start prevlen in
+    (r1 = Err E_StackLimit /\ 0 <= L) \/
+    match r1, r2 with
+    | Ok a, Ok b => same_result a b
+    | Fuel, Fuel => True
+    | _, _ => False
+    end.
+Proof. exact compile_find_dichotomy_partial. Qed.
+Print Assumptions C13_dichotomy_for_supported_partial.
+
+(* the same for ANY program whose unbounded attempt paths are known (no compiler involved) *)
+Theorem C13_dichotomy_along_known_paths :
+  forall (e : env) (p : program), 0 <= trackcount p ->
+  cp_need (codes p) 0 <= trackcount p * G_ensure_factor ->
+  forall L w0 vfuel rtl start prevlen, code_at p 0 = Some w0 -> all_paths e p -> 0 <= start <= tlen e ->
+  scan_out L (vm_find e p L vfuel rtl start prevlen) (vm_find e p (-1) vfuel rtl start prevlen).
+Proof. intros e p Htc Hw L w0 vfuel rtl start prevlen. exact (lim_find e p Htc Hw L w0 vfuel rtl start prevlen). Qed.
+Print Assumptions C13_dichotomy_along_known_paths.
